@@ -63,6 +63,46 @@ def ral (cap min : Nat) : Bytes → Sched → Bytes × Option RErr × Sched
         (acc ++ c.data.take (cap - acc.length), none, { c with data := c.data.drop (cap - acc.length) } :: rest)
     else (acc, none, c :: rest)
 
+/-! compiled forms that do not walk a whole (possibly megabytes long) chunk to compare its length with a small number
+(proved equal; `csimp` makes the compiler use them — the theory is unchanged) -/
+
+/-- `l.length ≤ n`, looking at no more than `n + 1` cells -/
+def lenLe {α : Type} : List α → Nat → Bool
+  | [], _ => true
+  | _ :: _, 0 => false
+  | _ :: t, n + 1 => lenLe t n
+
+theorem lenLe_iff {α : Type} (l : List α) (n : Nat) : lenLe l n = true ↔ l.length ≤ n := by
+  induction l generalizing n with
+  | nil => simp [lenLe]
+  | cons a t ih => cases n with
+    | zero => simp [lenLe]
+    | succ n => simp [lenLe, ih]
+
+def ralFast (cap min : Nat) : Bytes → Sched → Bytes × Option RErr × Sched
+  | acc, [] => if acc.length < min then (acc, some .eof, []) else (acc, none, [])
+  | acc, c :: rest =>
+    if acc.length < min then
+      if lenLe c.data (cap - acc.length) then
+        match c.err with
+        | none => ralFast cap min (acc ++ c.data) rest
+        | some e => (acc ++ c.data, some e, rest)
+      else
+        (acc ++ c.data.take (cap - acc.length), none, { c with data := c.data.drop (cap - acc.length) } :: rest)
+    else (acc, none, c :: rest)
+
+@[csimp] theorem ral_eq_ralFast : @ral = @ralFast := by
+  funext cap min acc s
+  induction s generalizing acc with
+  | nil => simp [ral, ralFast]
+  | cons c rest ih =>
+    simp only [ral, ralFast]
+    by_cases h : c.data.length ≤ cap - acc.length
+    · have h' : lenLe c.data (cap - acc.length) = true := (lenLe_iff _ _).mpr h
+      simp only [h, h', if_true, ih]
+    · have h' : ¬ (lenLe c.data (cap - acc.length) = true) := fun hh => h ((lenLe_iff _ _).mp hh)
+      simp only [h, h', if_false, Bool.false_eq_true]
+
 /-- `io.ReadAtLeast(r, buf, min)` with `len(buf) = cap`: bytes stored at `buf[0:]`, error, rest of the schedule -/
 def readAtLeast (cap min : Nat) (s : Sched) : Bytes × Option RErr × Sched :=
   if cap < min then ([], some .shortBuffer, s)
@@ -159,6 +199,30 @@ def exactRead (rest : Bytes) (n : Nat) : Except RErr Bytes × Bytes :=
   if n ≤ rest.length then (.ok (rest.take n), rest.drop n)
   else if rest.isEmpty then (.error .eof, [])
   else (.error .unexpectedEof, [])
+
+def exactReadFast (rest : Bytes) (n : Nat) : Except RErr Bytes × Bytes :=
+  if !(lenLe rest n) || rest.length == n then (.ok (rest.take n), rest.drop n)
+  else if rest.isEmpty then (.error .eof, [])
+  else (.error .unexpectedEof, [])
+
+@[csimp] theorem exactRead_eq_fast : @exactRead = @exactReadFast := by
+  funext rest n
+  unfold exactRead exactReadFast
+  by_cases h : n ≤ rest.length
+  · have : (!(lenLe rest n) || rest.length == n) = true := by
+      by_cases h2 : rest.length ≤ n
+      · have : rest.length = n := by omega
+        simp [this]
+      · have : lenLe rest n = false := by
+          cases hh : lenLe rest n with
+          | false => rfl
+          | true => exact absurd ((lenLe_iff _ _).mp hh) h2
+        simp [this]
+    simp only [h, if_true, this]
+  · have h2 : rest.length ≤ n := by omega
+    have h3 : lenLe rest n = true := (lenLe_iff _ _).mpr h2
+    have h4 : (rest.length == n) = false := by simp; omega
+    simp [h, h3, h4]
 
 def exactMany (rest : Bytes) : List Nat → List Res
   | [] => []
